@@ -91,8 +91,14 @@ func checkC09(p *core.Program, r *core.Report) {
 			b, ok := c.Call.Value.(*ssa.Builtin)
 			return ok && b.Name() == "len" && isStoredLoad(c.Call.Args[0])
 		}
-		zero := func(v ssa.Value) bool { c := core.ConstOf(v); return c != nil && c.Kind() == constant.Int && constant.Sign(c) == 0 }
-		emptyStr := func(v ssa.Value) bool { c := core.ConstOf(v); return c != nil && c.Kind() == constant.String && constant.StringVal(c) == "" }
+		zero := func(v ssa.Value) bool {
+			c := core.ConstOf(v)
+			return c != nil && c.Kind() == constant.Int && constant.Sign(c) == 0
+		}
+		emptyStr := func(v ssa.Value) bool {
+			c := core.ConstOf(v)
+			return c != nil && c.Kind() == constant.String && constant.StringVal(c) == ""
+		}
 		if lenOf(bo.X) && zero(bo.Y) {
 			switch bo.Op {
 			case token.EQL:
@@ -311,10 +317,56 @@ func checkC09(p *core.Program, r *core.Report) {
 		idCall, ok2 := core.Canon(c.Args[5]).(*ssa.Call)
 		if ok1 && ok2 && core.CallsMethodNamed(skiCall, apiPath, "ServiceDetails", "SKI") && core.CallsMethodNamed(idCall, apiPath, "ServiceDetails", "ShipID") &&
 			core.Canon(skiCall.Call.Args[0]) == core.Canon(idCall.Call.Args[0]) {
-			r.OK(R3, key, p.Pos(s.In.Pos()), "SKI() and ShipID() of the same service")
+			if storedService(p, idCall.Call.Args[0], 4) {
+				r.OK(R3, key, p.Pos(s.In.Pos()), "SKI() and ShipID() of the same stored service (ServiceForSKI)")
+			} else {
+				r.Fail(R3, key, p.Pos(s.In.Pos()), "the SHIP ID passed to the connection does not come from the hub's stored service record (ServiceForSKI) but from some other ServiceDetails value: the pin is lost")
+			}
 		} else {
 			r.Fail(R3, key, p.Pos(s.In.Pos()), "the stored SHIP ID passed to the connection is not ShipID() of the service whose SKI() is passed")
 		}
 	}
 	r.Floor(R3, 2)
+}
+
+// storedService: v is (on every path / from every caller) the result of (*Hub).ServiceForSKI.
+func storedService(p *core.Program, v ssa.Value, depth int) bool {
+	v = core.Canon(v)
+	if depth < 0 {
+		return false
+	}
+	switch x := v.(type) {
+	case *ssa.Call:
+		f := x.Call.StaticCallee()
+		return f != nil && f.Name() == "ServiceForSKI" && p.PkgShort(f) == "hub"
+	case *ssa.Phi:
+		for _, e := range x.Edges {
+			if !storedService(p, e, depth-1) {
+				return false
+			}
+		}
+		return len(x.Edges) > 0
+	case *ssa.Parameter:
+		fn := x.Parent()
+		idx := -1
+		for i, pa := range fn.Params {
+			if pa == x {
+				idx = i
+			}
+		}
+		n := 0
+		ok := true
+		for _, s := range core.Sites(p.RepoFuncs(), func(in ssa.Instruction) bool {
+			c := core.Common(in)
+			return c != nil && c.StaticCallee() == fn
+		}) {
+			n++
+			c := core.Common(s.In)
+			if idx < 0 || idx >= len(c.Args) || !storedService(p, c.Args[idx], depth-1) {
+				ok = false
+			}
+		}
+		return ok && n > 0
+	}
+	return false
 }
